@@ -15,7 +15,7 @@ func init() {
 	register(&Rule{
 		ID:    "C26",
 		Title: "Transaction selection respects nonce order",
-		Pkgs:  []string{"storage/txcache"},
+		Pkgs:  []string{"storage/txcache", "storage/txcache/maps"},
 		Explain: "Decides structural conditions of the per-sender copy loop txListForSender.selectBatchTo and of its caller. (S1, never skip a nonce) every path of the loop that reaches the copy into the destination passes " +
 			"the no-gap edge of the gap test (current nonce against previous nonce + 1), or bypasses it through a condition that does not depend on any nonce value; a bypass decided by comparing a nonce-valued variable with a " +
 			"literal uses a legal nonce as the 'no previous transaction' marker (every uint64 is a legal nonce). When the bypass is a loop-carried flag, the flag is set on every pass that copied. (S2) what the loop carries " +
@@ -23,12 +23,14 @@ func init() {
 			"period) when the stored gap flag is set the batch limit is the constant 0, or 1 only on the first batch and behind isInGracePeriod(); the flag is stored from the initial-gap test on the first batch and set on " +
 			"the gap branch of the loop. (S4, at most requested) the copy is dominated by copied != limit and copied != len(destination), copied advances by one, and the caller hands over the unfilled tail " +
 			"result[fill:] with fill advanced by the reported count and returns result[:fill]. (S5, the first ones in list order) the list position advances only by Next() on a pass that copied the element's value. " +
+			"A sender changes score chunk by leaving the old one first. " +
 			"Not decided (value-level): that the list is nonce-ordered (C25), arithmetic wrap of nonce+1, fairness between senders.",
 		Run: runC26,
 	})
 }
 
 func runC26(c *core.Ctx) {
+	c26ScoreMoveRemovesBeforeAdding(c)
 	const pkg = "storage/txcache"
 	fn := anchorM(c, pkg, "txListForSender", "selectBatchTo")
 	if fn == nil {
@@ -553,4 +555,36 @@ func c26Caller(c *core.Ctx) {
 			"every return has stored the notified nonce and marked it known",
 			"a notification can be dropped without storing the nonce ("+c.P.PathString(p1)+"): the initial-gap test then compares with an outdated account nonce (e.g. after a revert lowered it) and a sender whose lowest pooled nonce is above its account nonce is selected from")
 	}
+}
+
+// c26ScoreMoveRemovesBeforeAdding: the snapshot a selection works from lists every sender once
+// because a sender sits in exactly one score chunk. Moving a sender between chunks takes it out of
+// the old chunk before it is put into the new one: the other order lets a concurrent snapshot see it
+// twice, and its transactions are selected twice.
+func c26ScoreMoveRemovesBeforeAdding(c *core.Ctx) {
+	fn := anchorM(c, "storage/txcache/maps", "BucketSortedMap", "NotifyScoreChange")
+	if fn == nil {
+		return
+	}
+	removes := func(in ssa.Instruction) bool {
+		cc := core.CallOf(in)
+		if cc == nil {
+			return false
+		}
+		n := core.CallDesc(cc).Name
+		return n == "removeFromScoreChunk" || n == "removeItem"
+	}
+	n := 0
+	core.Instrs(fn, func(in ssa.Instruction) {
+		cc := core.CallOf(in)
+		if cc == nil || core.CallDesc(cc).Name != "setItem" {
+			return
+		}
+		n++
+		esc, path := core.PathQ{Fn: fn, Via: removes, Target: func(x ssa.Instruction, _ *ssa.BasicBlock) bool { return x == in }}.Escape()
+		c.Check(esc == nil, "C26/score-move-removes-before-adding", fmt.Sprintf("BucketSortedMap.NotifyScoreChange/setItem#%d", n), in.Pos(),
+			"the sender is removed from its old score chunk before it is added to the new one",
+			"a sender is added to its new score chunk before it is removed from the old one ("+c.P.PathString(path)+"): a snapshot taken in between lists the sender twice and its transactions are selected twice")
+	})
+	c.Floor("C26/score-move-removes-before-adding", 1)
 }
